@@ -88,10 +88,12 @@ class Renderer:
         return text, exp
 
 
-def load_both(me, loader, text, delim, scratch):
+def load_both(me, loader, text, delim, scratch, comment=None):
     """load from a StringIO and from a path; returns list of (source, outcome)"""
     fn = getattr(me.io, "load_" + loader)
     kw = {"delimiter": ","} if delim == "comma" else {}
+    if comment is not None:
+        kw["comment"] = comment
     outs = []
     path = os.path.join(scratch, "f.txt")
     with open(path, "w", encoding="utf-8", newline="") as f:
@@ -235,6 +237,23 @@ def run(tier, seed):
                 if cls != "ok" or nw < 1:
                     rep.violation("io.load_" + bad[0], "convention-violation/" + ("no-warning" if cls == "ok" else "raised-" + cls),
                                   {"text": bad[1], "source": src, "outcome": [cls, repr(val)[:200]]})
+            # other documented comment markers: a regular expression anchored at the start of the line.  Data rows that
+            # merely CONTAIN a marker (inside a label) are data.
+            marker, lab = rng.choice([("%", "swing 50% feel"), ("#|%", "rate 5% up"), (";", "a;b"), ("//", "path//x"), ("#|%", "x#y")])
+            first = marker.split("|")[0]
+            rows_ = [(1.5, 2.5, lab), (3.0, 4.25, "plain")]
+            text = "%s header\n" % first + "".join("%r %r %s\n" % r_ for r_ in rows_) + ("%s tail\n" % marker.split("|")[-1])
+            for src, (cls, val, nw) in load_both(me, "labeled_intervals", text, "space", scratch, comment=marker):
+                n += 1
+                ok = cls == "ok" and same_value(val[0], np.array([[1.5, 2.5], [3.0, 4.25]])) and val[1] == [lab, "plain"]
+                if not ok:
+                    rep.violation("io.load_labeled_intervals", "comment-marker/value-differs",
+                                  {"text": text, "comment": marker, "source": src, "outcome": [cls, repr(val)[:300]]})
+            text = "# not a comment now\n"
+            for src, (cls, val, nw) in load_both(me, "events", "1.5\n" + text, "space", scratch, comment="%"):
+                n += 1
+                if cls != "ValueError" or ":2:" not in val:
+                    rep.violation("io.load_events", "comment-marker/other-marker-line-not-rejected", {"text": "1.5\n" + text, "comment": "%", "outcome": [cls, repr(val)[:200]]})
             for text in ("60 120 1.5\n", "60 120 -0.1\n"):
                 for src, (cls, val, nw) in load_both(me, "tempo", text, "space", scratch):
                     n += 1
